@@ -60,6 +60,8 @@ type world struct {
 	spe     uint64
 	incl    *tracker.InclusionChecker
 	hooks   map[string][]drv.Step
+	wired   *wiring                                                      // wire mode: the stub components
+	edge    func(context.Context, core.Duty, core.SignedDataSet) error // ... and the Broadcaster edge of core.Wire
 }
 
 func (w *world) now() int { return int(time.Since(w.start) / time.Millisecond) }
@@ -303,8 +305,21 @@ func (w *world) submit(st drv.Step, in bool) {
 		set[core.PubKey(drv.Str(obj(e)["pk"]))] = signedData(slot, obj(e))
 	}
 
-	w.emit(drv.Step{"ev": "Sub", "in": in, "typ": st["typ"], "slot": slot, "ents": st["ents"]})
-	err := w.incl.Submitted(dutyOf(drv.Str(st["typ"]), slot), set)
+	bc := "ok"
+	if drv.Str(st["bcast"]) == "err" {
+		bc = "err"
+	}
+
+	w.emit(drv.Step{"ev": "Sub", "in": in, "typ": st["typ"], "slot": slot, "ents": st["ents"], "wire": w.edge != nil, "bcast": bc})
+
+	var err error
+	if w.edge != nil {
+		w.wired.bcErr = bc == "err"
+		err = w.edge(context.Background(), dutyOf(drv.Str(st["typ"]), slot), set)
+	} else {
+		err = w.incl.Submitted(dutyOf(drv.Str(st["typ"]), slot), set)
+	}
+
 	w.emit(drv.Step{"ev": "SubRet", "err": err != nil})
 }
 
@@ -672,20 +687,31 @@ func runOne(t *testing.T, tr *drv.Tracer, sink *logSink, sid int, sched []drv.St
 		sort.SliceStable(timed, func(i, j int) bool { return drv.Num(timed[i]["at"]) < drv.Num(timed[j]["at"]) })
 
 		tr.Emit(drv.Step{"ev": "Reset", "sid": sid, "flag": flag, "dcache": dcache, "tps": drv.Num(cfg["tps"]), "start": drv.Num(cfg["start"]),
-			"off": drv.Num(cfg["off"]), "spe": drv.Num(cfg["spe"]), "tag": drv.Str(cfg["tag"])})
+			"off": drv.Num(cfg["off"]), "spe": drv.Num(cfg["spe"]), "tag": drv.Str(cfg["tag"]), "wire": cfg["wire"] == true})
 
 		ctx, cancel := context.WithCancel(context.Background())
 		defer cancel()
 
-		incl, err := tracker.NewInclusion(ctx, w.client(), func(d core.Duty, pk core.PubKey, _ core.SignedData, err error) {
+		report := func(d core.Duty, pk core.PubKey, _ core.SignedData, err error) {
 			w.emit(drv.Step{"ev": "Trk", "typ": d.Type.String(), "slot": int(d.Slot), "pk": string(pk), "ok": err == nil,
 				"canceled": errors.Is(err, context.Canceled)})
-		})
+		}
+
+		wire, _ := cfg["wire"].(bool)
+		if wire { // as app/app.go: the tracker's InclusionChecked is the callback
+			w.wired = &wiring{w: w, inclFn: report}
+			report = wTrack{w.wired}.InclusionChecked
+		}
+
+		incl, err := tracker.NewInclusion(ctx, w.client(), report)
 		if err != nil {
 			t.Fatalf("NewInclusion: %v", err)
 		}
 
 		w.incl = incl
+		if wire {
+			w.edge = w.wired.wire(incl)
+		}
 
 		sink.mu.Lock()
 		sink.w = w
